@@ -180,7 +180,11 @@ type c18Case struct {
 	vals []ssa.Value // [0] signature, [1] signer info, [2:] errors known nil on success
 }
 
-func c18ReturnsCheckedCall(w *World, fn *ssa.Function, ex *ExitSum, paths map[*ssa.Function]string) (bool, string) {
+// pathOf says whether a call IS one of the checked paths (by role, see c18RawPath) and under which capability label it
+// has to be executed ("" = none: used for the helpers of a path, whose callers are held to the capability).
+type c18PathOf func(call *ssa.Call) (capLabel string, isPath bool, why string)
+
+func c18ReturnsCheckedCall(w *World, fn *ssa.Function, ex *ExitSum, paths c18PathOf) (bool, string) {
 	fi := w.Info(fn)
 	r := ex.Ret
 	if len(r.Results) != 3 {
@@ -329,7 +333,7 @@ func c18NilTested(cond ssa.Value, truth bool) ssa.Value {
 	return o
 }
 
-func c18AcceptCase(w *World, fi *FnInfo, cs c18Case, paths map[*ssa.Function]string) (bool, string) {
+func c18AcceptCase(w *World, fi *FnInfo, cs c18Case, paths c18PathOf) (bool, string) {
 	e0, ok0 := cs.vals[0].(*ssa.Extract)
 	e1, ok1 := cs.vals[1].(*ssa.Extract)
 	if !ok0 || !ok1 || e0.Index != 0 || e1.Index != 1 || e0.Tuple != e1.Tuple {
@@ -339,10 +343,12 @@ func c18AcceptCase(w *World, fi *FnInfo, cs c18Case, paths map[*ssa.Function]str
 	if !ok {
 		return false, "the returned values are not results of a call"
 	}
-	g := staticCallee(call)
-	capLabel, isPath := paths[g]
-	if g == nil || !isPath {
-		return false, "returns the results of " + calleeName(call) + ", which is neither the envelope path nor the raw path"
+	capLabel, isPath, whyNot := paths(call)
+	if !isPath {
+		if whyNot != "" {
+			whyNot = " (" + whyNot + ")"
+		}
+		return false, "returns the results of " + calleeName(call) + ", which is neither the envelope path nor the raw path" + whyNot
 	}
 	decided := false
 	for _, v := range cs.vals[2:] {
@@ -352,6 +358,9 @@ func c18AcceptCase(w *World, fi *FnInfo, cs c18Case, paths map[*ssa.Function]str
 	}
 	if !decided {
 		return false, "the error of " + calleeName(call) + " does not decide this exit"
+	}
+	if capLabel == "" {
+		return true, ""
 	}
 	if _, has := hasLabel(fi.GuardsOf(call), "T(call:(*pfw/plugin.GetMetadataResponse).HasCapability(", capLabel); !has {
 		return false, calleeName(call) + " is not called under its capability"
@@ -2043,4 +2052,417 @@ func c18InnerLevel(v ssa.Value, inner map[ssa.Value]bool) bool {
 		}
 	}
 	return true
+}
+
+// ---------- dispatch: the raw path by role ----------------------------------------------------------------------------
+//
+// Clause (c) speaks of "what the raw path returned". The raw path is not a particular helper of the plugin signer: it is
+// a call of the GENERIC SIGNER on an object whose primitive signer is the plugin-backed one. c18RawPath recognises it
+// by that role, wherever the call is written (in a helper with any parameter list, or in Sign / SignBlob themselves):
+//
+//   R1 the callee is the generic signer GS (the function that calls Envelope.Sign, held to raw/generic-signer/*) or a
+//      method of GS's receiver type that returns, on every success-capable exit, results #0 and #1 of ONE call of such
+//      a method ON ITS OWN RECEIVER whose error decides the exit (GenericSigner.SignBlob: descriptor, then s.Sign).
+//      Such a method hands back only what GS returned for the same object, so the obligations stated on GS's exits
+//      (signed, self-verified, payload type) hold for what it returns.
+//   R2 the receiver is a plugin-backed generic signer: followed backwards through phis and through results of module
+//      functions (constructor helpers: a fresh object per call) it is always an allocation of GS's receiver type
+//        - every store into a field of which, through the allocation or any value on the way, puts there an interface
+//          made from a pointer that is — followed the same way — always an allocation of the primitive signer type (the
+//          receiver type of the function calling SignPlugin.GenerateSignature) with exactly one store each into keyID,
+//          plugin and keySpec (the values stored are held to raw/primitive-signer/* in the function that stores them);
+//        - at least one such store exists;
+//        - which is used for nothing else: field stores/loads, receiver of an R1 call, returned by the constructor
+//          (no alias through which the field could be replaced between construction and use).
+//      So whenever the R1 call runs, the field is nil (no signature, Envelope.Sign fails) or the plugin-backed signer.
+//   R3 a module function every success-capable exit of which returns results #0/#1 of one R1+R2 call (or of another R3
+//      function) whose error decides the exit is a HELPER of the raw path: calling it returns only what the raw path
+//      returned. (The former rule took any method that contained a call of GenericSigner.Sign for the raw path,
+//      without looking at what it returned or at the receiver.)
+//
+// The capability is not part of the role: it is required of the call in Sign / SignBlob (c18AcceptCase), be that the R1
+// call itself or the call of an R3 helper.
+
+type c18RawPath struct {
+	w      *World
+	GS     *ssa.Function
+	primT  string
+	gsSet  map[*ssa.Function]bool
+	helper map[*ssa.Function]int // 1 yes, 2 no, 3 being decided
+	why    map[*ssa.Function]string
+}
+
+func newC18RawPath(w *World) *c18RawPath {
+	rp := &c18RawPath{w: w, primT: "?", gsSet: map[*ssa.Function]bool{}, helper: map[*ssa.Function]int{}, why: map[*ssa.Function]string{}}
+	for _, fn := range w.FuncsOfPkg("signer") {
+		if len(findCalls(fn, "invoke:core/signature.Envelope.Sign")) > 0 {
+			rp.GS = fn
+		}
+		if fn.Signature.Recv() != nil && len(findCalls(fn, "invoke:pfw/plugin.SignPlugin.GenerateSignature")) > 0 {
+			rp.primT = namedOf(fn.Signature.Recv().Type())
+		}
+	}
+	if rp.GS == nil || rp.GS.Signature.Recv() == nil {
+		return rp
+	}
+	rp.gsSet[rp.GS] = true
+	// R1, to a fixed point (a method may delegate to a method that delegates to GS)
+	for round := 0; round < 3; round++ {
+		grown := false
+		for _, fn := range w.FuncsOfPkg("signer") {
+			fn := fn
+			if rp.gsSet[fn] || fn.Blocks == nil || fn.Signature.Recv() == nil || len(fn.Params) == 0 || !types.Identical(fn.Signature.Recv().Type(), rp.GS.Signature.Recv().Type()) {
+				continue
+			}
+			own := func(call *ssa.Call) (string, bool, string) {
+				if rp.gsSet[staticCallee(call)] && !call.Call.IsInvoke() && len(call.Call.Args) > 0 && call.Call.Args[0] == ssa.Value(fn.Params[0]) {
+					return "", true, ""
+				}
+				return "", false, "not the generic signer on the method's own receiver"
+			}
+			if ok, _ := c18ReturnsOnly(w, fn, own); ok {
+				rp.gsSet[fn] = true
+				grown = true
+			}
+		}
+		if !grown {
+			break
+		}
+	}
+	return rp
+}
+
+// c18ReturnsOnly: fn has a success-capable exit and every one of them returns the checked results of one call pathOf accepts.
+func c18ReturnsOnly(w *World, fn *ssa.Function, pathOf c18PathOf) (bool, string) {
+	res := fn.Signature.Results()
+	if fn.Blocks == nil || res.Len() != 3 || !isErrorType(res.At(2).Type()) {
+		return false, "not a (signature, signer info, error) function"
+	}
+	s := w.Summarize(fn, Mode{Kind: mErr})
+	if len(s.Exits) == 0 {
+		return false, "no success-capable exit"
+	}
+	for _, ex := range s.Exits {
+		if ok, why := c18ReturnsCheckedCall(w, fn, ex, pathOf); !ok {
+			return false, fmt.Sprintf("exit %s of %s: %s", w.InstrPos(ex.Ret), fnName(fn), why)
+		}
+	}
+	return true, ""
+}
+
+// isRawCall: the call is the raw path (R1+R2) or a call of one of its helpers (R3).
+func (rp *c18RawPath) isRawCall(call *ssa.Call) (bool, string) {
+	g := staticCallee(call)
+	if g == nil || call.Call.IsInvoke() {
+		return false, "not a static call"
+	}
+	if rp.gsSet[g] {
+		if len(call.Call.Args) == 0 {
+			return false, "no receiver"
+		}
+		if ok, why := rp.pluginBacked(call.Call.Args[0]); !ok {
+			return false, "a generic signer, but its receiver is not known to hold the plugin-backed primitive signer: " + why
+		}
+		return true, ""
+	}
+	if rp.isHelper(g) {
+		return true, ""
+	}
+	return false, rp.why[g]
+}
+
+func (rp *c18RawPath) isHelper(f *ssa.Function) bool {
+	if f == nil || f.Blocks == nil || !rp.w.IsProductFn(f) || rp.gsSet[f] {
+		return false
+	}
+	switch rp.helper[f] {
+	case 1:
+		return true
+	case 2, 3:
+		return false
+	}
+	rp.helper[f] = 3
+	ok, why := c18ReturnsOnly(rp.w, f, func(call *ssa.Call) (string, bool, string) {
+		ok, why := rp.isRawCall(call)
+		return "", ok, why
+	})
+	if ok {
+		rp.helper[f] = 1
+	} else {
+		rp.helper[f] = 2
+		rp.why[f] = why
+	}
+	return ok
+}
+
+// objects follows a pointer backwards to the allocations it can be: through phis and through the results of module
+// functions. way collects every value met (the allocation included). false: something else (a parameter, a field, nil, …).
+func (rp *c18RawPath) objects(v ssa.Value, depth int, allocs map[*ssa.Alloc]bool, way map[ssa.Value]bool) bool {
+	if depth > 5 {
+		return false
+	}
+	if way[v] {
+		return true
+	}
+	switch x := v.(type) {
+	case *ssa.Alloc:
+		way[v] = true
+		allocs[x] = true
+		return true
+	case *ssa.Phi:
+		way[v] = true
+		for _, e := range x.Edges {
+			if !rp.objects(e, depth+1, allocs, way) {
+				return false
+			}
+		}
+		return true
+	case *ssa.Call:
+		return rp.resultObjects(x, 0, 1, depth, allocs, way)
+	case *ssa.Extract:
+		if call, ok := x.Tuple.(*ssa.Call); ok {
+			if !rp.resultObjects(call, x.Index, -1, depth, allocs, way) {
+				return false
+			}
+			way[v] = true
+			return true
+		}
+	}
+	return false
+}
+
+func (rp *c18RawPath) resultObjects(call *ssa.Call, idx, nres, depth int, allocs map[*ssa.Alloc]bool, way map[ssa.Value]bool) bool {
+	g := staticCallee(call)
+	if g == nil || call.Call.IsInvoke() || g.Blocks == nil || !rp.w.IsProductFn(g) || idx >= g.Signature.Results().Len() || (nres >= 0 && g.Signature.Results().Len() != nres) {
+		return false
+	}
+	way[call] = true
+	n := 0
+	for _, b := range g.Blocks {
+		r, ok := blockTerm(b).(*ssa.Return)
+		if !ok || idx >= len(r.Results) {
+			continue
+		}
+		if isNilConst(r.Results[idx]) && len(r.Results) > 1 {
+			continue // the constructor's failure exits hand back no object
+		}
+		n++
+		if !rp.objects(r.Results[idx], depth+1, allocs, way) {
+			return false
+		}
+	}
+	return n > 0
+}
+
+// pluginBacked: R2.
+func (rp *c18RawPath) pluginBacked(recv ssa.Value) (bool, string) {
+	allocs, way := map[*ssa.Alloc]bool{}, map[ssa.Value]bool{}
+	if !rp.objects(recv, 0, allocs, way) || len(allocs) == 0 {
+		return false, "the receiver " + trunc(desc(recv), 80) + " is not an object built on the way to the call"
+	}
+	gsT := rp.GS.Signature.Recv().Type()
+	for a := range allocs {
+		if !types.Identical(a.Type(), gsT) {
+			return false, "the receiver is not built as a " + namedOf(gsT)
+		}
+	}
+	stores := map[*ssa.Alloc]int{}
+	var todo []ssa.Value
+	for v := range way {
+		todo = append(todo, v)
+	}
+	for len(todo) > 0 {
+		v := todo[0]
+		todo = todo[1:]
+		refs := v.Referrers()
+		if refs == nil {
+			return false, "uses unknown"
+		}
+		for _, ref := range *refs {
+			switch r := ref.(type) {
+			case *ssa.DebugRef, *ssa.Return:
+			case *ssa.Phi:
+				if !way[r] {
+					return false, "the object also flows elsewhere (" + rp.w.InstrPos(r) + ")"
+				}
+			case *ssa.UnOp:
+				// a copy of the whole object cannot change the object
+				if r.Op != token.MUL {
+					return false, "unexpected use"
+				}
+			case *ssa.Store:
+				// the object is filled by a copy of the object a constructor returns BY VALUE (`gs := s.newGeneric(…)`): the
+				// constructor's own objects are held to the same conditions, and the copy has their field values
+				a, isA := v.(*ssa.Alloc)
+				if !isA || r.Addr != v {
+					return false, "the object escapes (" + rp.w.InstrPos(r) + ")"
+				}
+				src, okSrc := rp.copiedFrom(r.Val)
+				if !okSrc {
+					return false, "the object is overwritten with " + trunc(desc(r.Val), 60) + " (" + rp.w.InstrPos(r) + ")"
+				}
+				for _, b := range src {
+					if !types.Identical(b.Type(), gsT) {
+						return false, "the object is overwritten with another type"
+					}
+					if !way[b] {
+						way[b], allocs[b] = true, true
+						todo = append(todo, b)
+					}
+				}
+				stores[a]++
+			case *ssa.Extract:
+				// results of a constructor call: the object is the one followed; the others (an error) are not it
+			case *ssa.Call:
+				if r == v {
+					continue
+				}
+				if r.Call.IsInvoke() || !rp.gsSet[staticCallee(r)] || len(r.Call.Args) == 0 || r.Call.Args[0] != v {
+					return false, "the object is handed to " + calleeName(r) + " (" + rp.w.InstrPos(r) + ")"
+				}
+				for _, a := range r.Call.Args[1:] {
+					if a == v {
+						return false, "the object is handed on as an argument"
+					}
+				}
+			case *ssa.FieldAddr:
+				if r.X != v {
+					return false, "unexpected use"
+				}
+				for _, u := range *r.Referrers() {
+					switch y := u.(type) {
+					case *ssa.DebugRef:
+					case *ssa.UnOp:
+						if y.Op != token.MUL {
+							return false, "unexpected use of a field"
+						}
+					case *ssa.Store:
+						if y.Addr != ssa.Value(r) {
+							return false, "the address of a field is stored away"
+						}
+						mi, isMI := y.Val.(*ssa.MakeInterface)
+						if !isMI {
+							return false, "field " + fieldName(r.X.Type(), r.Field) + " is set to " + trunc(desc(y.Val), 60) + " (" + rp.w.InstrPos(y) + ")"
+						}
+						if ok, why := rp.primitiveBuilt(mi.X); !ok {
+							return false, "field " + fieldName(r.X.Type(), r.Field) + " (" + rp.w.InstrPos(y) + "): " + why
+						}
+						if a, isA := v.(*ssa.Alloc); isA {
+							stores[a]++
+						}
+					default:
+						return false, "the address of a field escapes (" + rp.w.InstrPos(u) + ")"
+					}
+				}
+			default:
+				return false, "the object escapes (" + rp.w.InstrPos(ref) + ")"
+			}
+		}
+	}
+	for a := range allocs {
+		if stores[a] == 0 {
+			return false, "the object built at " + rp.w.InstrPos(a) + " is given no primitive signer"
+		}
+	}
+	return true, ""
+}
+
+// copiedFrom: v is the result of a module function with one result that returns, on every exit, the content of an object
+// it allocated itself.
+func (rp *c18RawPath) copiedFrom(v ssa.Value) ([]*ssa.Alloc, bool) {
+	call, ok := v.(*ssa.Call)
+	if !ok {
+		return nil, false
+	}
+	g := staticCallee(call)
+	if g == nil || call.Call.IsInvoke() || g.Blocks == nil || !rp.w.IsProductFn(g) || g.Signature.Results().Len() != 1 {
+		return nil, false
+	}
+	var out []*ssa.Alloc
+	for _, b := range g.Blocks {
+		r, isR := blockTerm(b).(*ssa.Return)
+		if !isR {
+			continue
+		}
+		ld, isL := r.Results[0].(*ssa.UnOp)
+		if !isL || ld.Op != token.MUL {
+			return nil, false
+		}
+		al, isA := ld.X.(*ssa.Alloc)
+		if !isA {
+			return nil, false
+		}
+		out = append(out, al)
+	}
+	return out, len(out) > 0
+}
+
+// primitiveBuilt: the pointer is always a freshly built plugin-backed primitive signer (second item of R2).
+func (rp *c18RawPath) primitiveBuilt(p ssa.Value) (bool, string) {
+	allocs, way := map[*ssa.Alloc]bool{}, map[ssa.Value]bool{}
+	if !rp.objects(p, 0, allocs, way) || len(allocs) == 0 {
+		return false, "the primitive signer " + trunc(desc(p), 80) + " is not an object built on the way"
+	}
+	for a := range allocs {
+		if namedOf(a.Type()) != rp.primT {
+			return false, "the primitive signer is a " + namedOf(a.Type()) + ", not the plugin-backed " + rp.primT
+		}
+	}
+	set := map[*ssa.Alloc]map[string]int{}
+	for v := range way {
+		refs := v.Referrers()
+		if refs == nil {
+			return false, "uses unknown"
+		}
+		for _, ref := range *refs {
+			switch r := ref.(type) {
+			case *ssa.DebugRef, *ssa.Return, *ssa.Extract:
+			case *ssa.Phi:
+				if !way[r] {
+					return false, "the primitive signer also flows elsewhere"
+				}
+			case *ssa.MakeInterface:
+				// held as an interface: its fields cannot be written through it without a type assertion back to the
+				// pointer type, which c12AssertsIn lists
+			case *ssa.Call:
+				if r != v {
+					return false, "the primitive signer is handed to " + calleeName(r)
+				}
+			case *ssa.FieldAddr:
+				for _, u := range *r.Referrers() {
+					switch y := u.(type) {
+					case *ssa.DebugRef:
+					case *ssa.UnOp:
+						if y.Op != token.MUL {
+							return false, "unexpected use of a field of the primitive signer"
+						}
+					case *ssa.Store:
+						if y.Addr != ssa.Value(r) {
+							return false, "the address of a field of the primitive signer is stored away"
+						}
+						if a, isA := v.(*ssa.Alloc); isA {
+							if set[a] == nil {
+								set[a] = map[string]int{}
+							}
+							set[a][fieldName(r.X.Type(), r.Field)]++
+						} else {
+							return false, "a field of the primitive signer is overwritten after construction (" + rp.w.InstrPos(y) + ")"
+						}
+					default:
+						return false, "the address of a field of the primitive signer escapes"
+					}
+				}
+			default:
+				return false, "the primitive signer escapes (" + rp.w.InstrPos(ref) + ")"
+			}
+		}
+	}
+	for a := range allocs {
+		for _, f := range []string{"keyID", "plugin", "keySpec"} {
+			if set[a][f] != 1 {
+				return false, fmt.Sprintf("the primitive signer built at %s has %d stores into %s (exactly one is expected, held to raw/primitive-signer)", rp.w.InstrPos(a), set[a][f], f)
+			}
+		}
+	}
+	return true, ""
 }
